@@ -648,7 +648,7 @@ class ttensor:
                 and full_samples[k].shape[-1] == shape[k]
             ):
                 new_u.append(
-                    full_samples[k].dot(as_float_if_needed(self.factor_matrices[k]))
+                    full_samples[k] @ as_float_if_needed(self.factor_matrices[k])
                 )
             else:
                 factor = self.factor_matrices[k]
